@@ -500,6 +500,11 @@ Definition table : list (Z * (list Z -> res)) :=
     e "zn.inv"%opname (fun a => match a with [n; x] => opt1 (modinv x n) | _ => Panic end);
     e "zn.div"%opname (fun a => match a with [n; x; y] =>
         match modinv y n with Some yi => Ok [(x * yi) mod n] | None => Refuse end | _ => Panic end);
+    e "zn.shift"%opname (fun a => match a with [n; x; s] => Ok [(x * 2 ^ s) mod n; (x / 2 ^ s) mod n] | _ => Panic end);
+    e "zn.expbounded"%opname (fun a => match a with [n; x; y; bits] =>
+        let y := int_in bits y in
+        let r := modpow (x mod n) (Z.abs y) n in
+        if y <? 0 then opt1 (modinv r n) else Ok [r] | _ => Panic end);
     e "zn.sqrt"%opname (fun a => match a with [n; x] =>
         match modsqrt x n with SqrtOk r => Ok [r] | SqrtNone => Refuse | SqrtPanic => Panic end | _ => Panic end);
     (* ---- plain integers (num.Nat / num.Int / num.NatPlus) *)
@@ -525,6 +530,12 @@ Definition table : list (Z * (list Z -> res)) :=
     e "q.round"%opname (fun a => match a with [a1; b1] =>
         let '(n, d) := rat_canon a1 b1 in
         Ok [n; d; a1 / b1; - ((- a1) / b1); b2z (d =? 1)] | _ => Panic end);
+    (* ---- random sampling in a range: lo, hi, sampled value *)
+    e "range.check"%opname (fun a => match a with [lo; hi; r] =>
+        if hi <=? lo then Refuse else okb ((lo <=? r) && (r <? hi)) | _ => Panic end);
+    (* ---- cardinals (saturating subtraction) *)
+    e "card.arith"%opname (fun a => match a with [x; y] =>
+        Ok [x + y; x * y; Z.max 0 (x - y); b2z (x <=? y); b2z (x =? y); bitlen x] | _ => Panic end);
     (* ---- generated primes: p, requested bits *)
     e "prime.check"%opname (fun a => match a with [p; bits] =>
         Ok [b2z (is_prime_mr p); b2z (bitlen p =? bits); p mod 4; b2z (is_prime_mr ((p - 1) / 2))] | _ => Panic end)
